@@ -391,6 +391,37 @@ Definition result_of (w : world) (o : ostate) (ok : bool) (out : outcome) (s : p
      rr_trace := rev (ps_trace s);
      rr_moves := if ok then rev (ps_moves s) else [] |}.
 
+(* steps 4 (sweep), 5 (ICS-20 credit) and 7 (dispatch) of OnRecvPacket for a parsed orbiter packet *)
+Definition recv_body (vr : variant) (cfg : config) (acts : Z -> option action_ctrl) (e : env) (lie : Z)
+           (o : ostate) (p : packet) (pl : payload) (f : forwarding) (t : tattr) : M tattr := fun s0 =>
+  let prior := bal (ps_l s0) (cfg_orbiter cfg) (t_ddenom t) + lie in
+  (_ <- (if 0 <? prior
+         then ext_moving (CSweep (t_ddenom t) prior)
+                         [MSend (cfg_orbiter cfg) (cfg_dust cfg) (t_ddenom t) prior] "sweep failed"
+         else mret tt) ;;
+   (* 5. the wrapped ICS-20 application releases the coin to the receiver *)
+   _ <- ext_moving CWrapped
+          [MSend (cfg_escrow cfg (pk_dport p) (pk_dchan p)) (cfg_orbiter cfg) (t_ddenom t) (t_samt t)]
+          "ics20" ;;
+   (* 7. dispatch *)
+   t' <- dispatch_actions acts (fun a => smem cmp_z a (paused_actions o)) (p_pre pl) t ;;
+   _ <- run_forwarding_with (forward_ctrl_with (v_allow_self vr) (v_hyp_log_first vr)) cfg e lie
+          (fun pid => smem cmp_z pid (paused_protos o))
+          (fun pid cp => smem cmp_cc (pid, cp) (paused_cc o)) (Some f) t' ;;
+   mret t') s0.
+
+Definition pass_limit (o : ostate) : Z := match max_pass o with Some v => v | None => 0 end.
+
+(* the packet is delegated to the wrapped application *)
+Definition delegate (cfg : config) (e : env) (w : world) (p : packet) (s0 : pst) : recv_result :=
+  let '(v, s1) := ext CWrapped s0 in
+  if v then
+    let s2 := match ics20_moves cfg e p with
+              | Some ms => fold_left (fun s m => do_move m s) ms s1
+              | None => s1 end in
+    result_of w (w_o w) true (ODelegated true) s2
+  else result_of w (w_o w) false (ODelegated false) s1.
+
 Definition recv_with (vr : variant) (cfg : config) (acts : Z -> option action_ctrl) (e : env)
            (w : world) (p : packet) (tape : list bool) (lie : Z) : recv_result :=
   let s0 := {| ps_l := w_l w; ps_tape := tape; ps_trace := []; ps_moves := [] |} in
@@ -403,18 +434,10 @@ Definition recv_with (vr : variant) (cfg : config) (acts : Z -> option action_ct
   (* 2. adapter route, classification *)
   else if negb (existsb (Z.eqb protocol_ibc) (cfg_adapter_routes cfg)) then err "adapter not found" s0
   else
-    let delegate :=
-      let '(v, s1) := ext CWrapped s0 in
-      if v then
-        let s2 := match ics20_moves cfg e p with
-                  | Some ms => fold_left (fun s m => do_move m s) ms s1
-                  | None => s1 end in
-        result_of w o true (ODelegated true) s2
-      else result_of w o false (ODelegated false) s1 in
     match pk_data p with
-    | PRaw => delegate
+    | PRaw => delegate cfg e w p s0
     | PIcs denom amount sender receiver memo =>
-        if negb (is_orbiter_receiver vr cfg e receiver) then delegate
+        if negb (is_orbiter_receiver vr cfg e receiver) then delegate cfg e w p s0
         else
           (* 3. parse *)
           match parse_orbiter_packet vr e p denom amount memo with
@@ -424,27 +447,10 @@ Definition recv_with (vr : variant) (cfg : config) (acts : Z -> option action_ct
               match p_fwd pl with
               | None => err "forwarding is not set" s0
               | Some f =>
-                  (* 4. before-transfer hook: passthrough size, sweep *)
-                  let limit := match max_pass o with Some v => v | None => 0 end in
-                  if limit <? slen (f_pass f) then err "passthrough payload too large" s0
+                  (* 4. before-transfer hook: passthrough size *)
+                  if pass_limit o <? slen (f_pass f) then err "passthrough payload too large" s0
                   else
-                    let prior := bal (ps_l s0) (cfg_orbiter cfg) (t_ddenom t) + lie in
-                    let run : M tattr :=
-                      _ <- (if 0 <? prior
-                            then ext_moving (CSweep (t_ddenom t) prior)
-                                            [MSend (cfg_orbiter cfg) (cfg_dust cfg) (t_ddenom t) prior] "sweep failed"
-                            else mret tt) ;;
-                      (* 5. the wrapped ICS-20 application releases the coin to the receiver *)
-                      _ <- ext_moving CWrapped
-                             [MSend (cfg_escrow cfg (pk_dport p) (pk_dchan p)) (cfg_orbiter cfg) (t_ddenom t) (t_samt t)]
-                             "ics20" ;;
-                      (* 7. dispatch *)
-                      t' <- dispatch_actions acts (fun a => smem cmp_z a (paused_actions o)) (p_pre pl) t ;;
-                      _ <- run_forwarding_with (forward_ctrl_with (v_allow_self vr) (v_hyp_log_first vr)) cfg e lie
-                             (fun pid => smem cmp_z pid (paused_protos o))
-                             (fun pid cp => smem cmp_cc (pid, cp) (paused_cc o)) (Some f) t' ;;
-                      mret t' in
-                    match run s0 with
+                    match recv_body vr cfg acts e lie o p pl f t s0 with
                     | PPanic x => result_of w o false (OPanic x) s0
                     | PErr l s => err l s
                     | POk t' s =>
